@@ -388,7 +388,13 @@ def run(tier):
                         "name": "n_forward_ref_sync_cycle", "prod": prod_of.get("n_forward_ref_sync_cycle", {}).get("msg", "")[:200]})
 
     # ---- (6) canaries ------------------------------------------------------------------------------
-    _canaries(rows, d, res)
+    try:
+        _canaries(rows, d, res)
+    except (vlib.ToolError, StopIteration) as e:
+        # a broken generator can leave nothing intact to corrupt; the violations found decide then
+        if not res.violations:
+            raise vlib.ToolError("canary failed: %s" % e)
+        res.extra["canary"] = "not applicable on this log (%s)" % str(e)[:200]
     lap("canaries done")
     res.assumptions = [
         "well-typed = WellTyped of spec/HydroProg/HydroProg.tla (typing rules transcribed from the API signatures; rustc re-checks them on every rendered program)",
@@ -413,7 +419,7 @@ def _canaries(rows, d, res):
         rule_a = "C41:simulator-builder-failed-on-well-typed-program"
     ta["verdict"], ta["msg"] = "panic", "canary"
     # (b) an emitted graph whose subgraph order is reversed
-    tb = next(e for e in can if e["e"] == "prog" and e["prog"] == "h_tee_state_and_tick")
+    tb = next(e for e in can if e["e"] == "prog" and e["prog"] == "h_tee_state_and_tick" and e["emitted"])
     tb["P"]["topo"] = list(reversed(tb["P"]["topo"]))
     # (c) a term whose recorded type is wrong must be rejected by WellTyped
     tc = next(e for e in can if e["e"] == "term" and not e["hand"] and len(e["term"]) >= 4)
